@@ -969,7 +969,20 @@ def tridi_inverse_iteration(d, e, w, x0=None, rtol=1e-8):
     x0 /= norm_x
     while np.linalg.norm(np.abs(x0) - np.abs(x_prev)) > rtol:
         x_prev = x0.copy()
-        tridisolve(eig_diag, e, x0)
+        try:
+            tridisolve(eig_diag, e, x0)
+            singular = not np.all(np.isfinite(x0))
+        except ZeroDivisionError:
+            singular = True
+        if singular:
+            # w is an eigenvalue to working precision and the factorization
+            # met an exactly zero pivot: move the shift by a few ulps (as
+            # LAPACK's dstein does) and redo this step
+            eig_diag = eig_diag - 4 * np.finfo(float).eps * max(
+                np.abs(eig_diag).max(), 1.0)
+            x0[:] = x_prev
+            x_prev = np.zeros_like(x0)
+            continue
         norm_x = np.linalg.norm(x0)
         x0 /= norm_x
     return x0
